@@ -72,14 +72,14 @@ inductive SRes where
 
 def listSet {α} (l : List α) (i : Nat) (v : α) : List α := l.set i v
 
-/-- `set(key, value)`: keys, marker, then the (possibly failing) typed write -/
+/-- `set(key, value)` (repaired): the (possibly failing) typed write first, then keys and marker; a value the declared
+type rejects raises and changes nothing -/
 def MemStore.set (s : MemStore) (k : Key) (v : Val) : MemStore × SRes :=
   let i := k.idx
   if i < s.state.length then
-    let s1 := { s with keys := s.keys.set i (some k), state := s.state.set i .set }
     match s.dtype.coerce v with
-    | .ok w => ({ s1 with values := s1.values.set i w }, .unit)
-    | .error e => (s1, .exc e)
+    | .ok w => ({ s with keys := s.keys.set i (some k), state := s.state.set i .set, values := s.values.set i w }, .unit)
+    | .error e => (s, .exc e)
   else (s, .exc "IndexError")
 
 def MemStore.addKey (s : MemStore) (k : Key) : MemStore × SRes :=
